@@ -55,7 +55,12 @@ def dtd_specs(draw, opts=None):
             kind = "pcdata"
         if kind == "any" and not o.any:
             kind = "children"
-        if kind == "children":
+        if kind == "children" and len(later) >= 3 and draw(st.integers(0, 5)) == 0:
+            # the classic repeated choice (para | list | figure | quote)*
+            picked = draw(st.lists(st.sampled_from(later), min_size=3, max_size=min(4, len(later)), unique=True))
+            content = {"k": "children", "model": {"k": "choice", "occ": draw(st.sampled_from(["*", "+"])),
+                                                  "items": [{"k": "el", "name": n_, "occ": ""} for n_ in picked]}}
+        elif kind == "children":
             pool = list(later)
             content = {"k": "children", "model": draw(_group(pool, o, 0, top=True))}
         elif kind == "mixed":
